@@ -107,6 +107,7 @@ class Ref:
             self.open, self.ro = True, w[3] == "1"
             return "open ok"
         if op == "close":
+            self.curs = {}
             self.open = False
             return "close ok"
         if op == "db":
@@ -122,12 +123,16 @@ class Ref:
             if i not in self.dbs:
                 return "dbdestroy invalid_args"
             del self.dbs[i]
+            for c in [c for c, o in getattr(self, "curs", {}).items() if o[0] == i]:
+                del self.curs[c]
             return "dbdestroy ok"
         if op == "sync":
             return "sync ok"
         if op in ("nodes", "fsize"):
             return None
         d = self.dbs.get(int(w[1])) if op != "cur" else None
+        if d is not None and getattr(d, "tainted", False):
+            return None
         if op == "put":
             key, comp, val, fl = bytes.fromhex(w[2].replace("-", "")), int(w[3]), bytes.fromhex(w[4].replace("-", "")), int(w[5])
             ph = int(w[7]) if len(w) > 7 else 0
@@ -173,6 +178,7 @@ class Ref:
             if op == "getc":
                 return "getc ok %d %s" % (len(v), pval(v[:int(w[4])]))
             del d.m[e]
+            self.note_db_write(int(w[1]), e, True)
             return "del ok"
         if op == "mset":
             if d is None:
@@ -189,11 +195,164 @@ class Ref:
                 return "mget ok %d -" % (1 if 0 >= min(known, bs) else 0)
             rsz = min(bs, (len(d.meta) + 127) // 128 * 128)
             return "mget ok %d %s" % (1 if rsz >= min(known, bs) else 0, pval(d.meta[:min(rsz, known)]))
+        if op == "cur":
+            return self.cursor(w)
         if op == "dump":
             if d is None:
                 return "dump nodb"
             return "dump" + "".join(" %s=%s" % (d.out_key(e), pval(d.m[e])) for e in d.ordered())
         return None
+
+
+    # ------------------------------------------------------------ cursors (property-level oracle)
+    # state per cursor: [dbid, kind, ekey] with kind in head/tail/void/at/gap/unknown.
+    # Only clear-cut consequences of C02/C09 are predicted; anything else returns None (not checked).
+    def cursor(self, w):
+        if not hasattr(self, "curs"):
+            self.curs = {}
+        c, sub = int(w[1]), w[2]
+        if sub == "open":
+            self.curs.pop(c, None)
+            d = self.dbs.get(int(w[3]))
+            if d is None:
+                return "cur invalid_args"
+            if getattr(d, "tainted", False):
+                self.curs[c] = [int(w[3]), "unknown", None]
+                return None
+            op = w[4]
+            if op in ("bf", "al") and len(w) == 5:
+                self.curs[c] = [int(w[3]), "head" if op == "bf" else "tail", None]
+                return "cur ok"
+            if op in ("eq", "ge") and len(w) == 7:
+                st = [int(w[3]), "void", None]
+                r = self._seek(d, st, op, bytes.fromhex(w[5].replace("-", "")), int(w[6]))
+                if r == "cur ok":
+                    self.curs[c] = st
+                return r
+            return None
+        st = self.curs.get(c)
+        if st is None:
+            return "cur nocursor"
+        d = self.dbs.get(st[0])
+        if d is None or getattr(d, "tainted", False):
+            return None
+        if sub == "close":
+            del self.curs[c]
+            return "cur ok"
+        if sub == "to":
+            op = w[3]
+            if op == "bf":
+                st[1:] = ["head", None]
+                return "cur ok"
+            if op == "al":
+                st[1:] = ["tail", None]
+                return "cur ok"
+            keys = d.ordered()      # descending = NEXT order
+            if st[1] == "unknown":
+                return None
+            if st[1] == "void":
+                return "cur notfound"
+            if st[1] == "head":
+                if op == "prev":
+                    return "cur notfound"
+                if not keys:
+                    return "cur notfound"
+                st[1:] = ["at", keys[0]]
+                return "cur ok"
+            if st[1] == "tail":
+                if op == "next":
+                    return "cur notfound"
+                if not keys:
+                    return "cur notfound"
+                st[1:] = ["at", keys[-1]]
+                return "cur ok"
+            # at / gap: neighbours of the position in key space
+            sk = d.sort_key()
+            pos = sk(st[2])
+            if op == "next":
+                cand = [e for e in keys if sk(e) < pos]
+                tgt = cand[0] if cand else None
+            else:
+                cand = [e for e in keys if sk(e) > pos]
+                tgt = cand[-1] if cand else None
+            if tgt is None:
+                if st[1] == "gap":
+                    st[1] = "unknown"
+                return "cur notfound"
+            st[1:] = ["at", tgt]
+            return "cur ok"
+        if sub == "tokey":
+            return self._seek(d, st, w[3], bytes.fromhex(w[4].replace("-", "")), int(w[5]))
+        if st[1] == "unknown" or st[1] == "gap":
+            if sub in ("set", "del"):
+                # a write through a cursor that is not positioned on a record: the property does not say
+                # which record it hits; stop predicting this database
+                st[1] = "unknown"
+                d.tainted = True
+            return None
+        if st[1] != "at":
+            nf = {"get": "cur notfound -", "key": "cur notfound -", "val": "cur notfound -", "cval": "cur notfound 0 -",
+                  "ckey": "cur notfound 0:0 -", "match": "cur notfound 0:0", "del": "cur notfound"}
+            if sub == "set":
+                return "cur notfound" + (" ph=notcalled" if len(w) > 5 and w[5] != "0" else "")
+            return nf.get(sub)
+        e = st[2]
+        v = d.m[e]
+        kb = struct.pack("<Q", e[0]) if d.flags & VNUM else e[0]
+        if sub == "get":
+            return "cur ok %s=%s" % (d.out_key(e), pval(v))
+        if sub == "key":
+            return "cur ok " + d.out_key(e)
+        if sub == "val":
+            return "cur ok " + pval(v)
+        if sub == "cval":
+            return "cur ok %d %s" % (len(v), pval(v[:int(w[3])]))
+        if sub == "ckey":
+            return "cur ok %d:%d %s" % (len(kb), e[1], H(kb[:int(w[3])]))
+        if sub == "match":
+            return "cur ok %d:%d" % (1 if kb == bytes.fromhex(w[3].replace("-", "")) else 0, e[1])
+        if sub == "set":
+            nv = bytes.fromhex(w[3].replace("-", ""))
+            ph = int(w[5]) if len(w) > 5 else 0
+            if ph == 2:
+                return "cur fail ph=old:" + pval(v)
+            d.m[e] = nv
+            return "cur ok" + (" ph=old:" + pval(v) if ph == 1 else "")
+        if sub == "del":
+            del d.m[e]
+            st[1] = "gap"
+            # other cursors sitting on the deleted record are now in a gap as well
+            for o in self.curs.values():
+                if o is not st and o[0] == st[0] and o[1] == "at" and o[2] == e:
+                    o[1] = "gap"
+            return "cur ok"
+        return None
+
+    def _seek(self, d, st, op, key, comp):
+        e = d.ekey(key, comp)
+        if isinstance(e, str):
+            return "cur " + e
+        if op == "eq":
+            if e in d.m:
+                st[1:] = ["at", e]
+                return "cur ok"
+            if st[1] == "gap":
+                st[1] = "unknown"
+            return "cur notfound"
+        sk = d.sort_key()
+        cand = [x for x in d.m if sk(x) >= sk(e)]
+        if not cand:
+            if st[1] == "gap":
+                st[1] = "unknown"
+            return "cur notfound"
+        st[1:] = ["at", min(cand, key=sk)]
+        return "cur ok"
+
+    def note_db_write(self, dbid, e, deleted):
+        """a put/del through the database API: cursors on a deleted record fall into the gap"""
+        for o in getattr(self, "curs", {}).values():
+            if o[0] == dbid and o[1] == "at" and o[2] == e and deleted:
+                o[1] = "gap"
 
 
 # ---------------------------------------------------------------- key / value pools
